@@ -10,9 +10,11 @@ the same without end-of-track events, `IsChanMsg m c` / `IsNonChan m` = MIDI 1.0
 channel `c` / anything else, `channelsOf t` = the channels occurring in `t` in ascending order,
 `ClosedOnce tr` = `tr` ends with an end-of-track event and contains none before.
 
-Domain `Dom f t` (DESIGN §8): `f` has the single track `t`, is not format 1 already, the deltas of `t`
-sum to less than `2^32` (the recomputed deltas are `uint32`), and an end-of-track event occurs in `t`
-at most as the last event (where `Track.Close` puts it). Messages are arbitrary byte strings.
+Domain `Dom f t` (DESIGN §8): `f` has the single track `t`, is not format 1 already, an end-of-track event occurs
+in `t` at most as the last event (where `Track.Close` puts it), and on every resulting track (the non-channel events;
+each channel) every step from one event to the next — the first from tick 0 — is below `2^32` ticks (`GapsP`: the
+recomputed deltas are `uint32`, more cannot be expressed). The total length is bounded by `int64` only; a source
+shorter than `2^32` ticks is in the domain whatever its events (`Dom.ofTotal`). Messages are arbitrary byte strings.
 
 Trusted (DESIGN §4): `sort.Sort` leaves the already non-decreasing `metaTrack` as it is.
 -/
@@ -52,7 +54,7 @@ theorem convert_abs (f : File) (t : Track) (h : Dom f t) :
       payload mt = (payload t).filter offChan ∧
       cts.length = (channelsOf t).length ∧
       ∀ cp ∈ (channelsOf t).zip cts, payload cp.2 = (payload t).filter (onChan cp.1) := by
-  refine ⟨_, _, convert_shape f t h, payload_meta t h.ticks h.eot, by simp, ?_⟩
+  refine ⟨_, _, convert_shape f t h, payload_meta t h.gaps_metaOf h.eot, by simp, ?_⟩
   intro cp hcp
   rw [List.zip_map_right] at hcp
   obtain ⟨⟨c, c'⟩, hz, rfl⟩ := List.mem_map.1 hcp
@@ -62,7 +64,7 @@ theorem convert_abs (f : File) (t : Track) (h : Dom f t) :
     obtain ⟨a, _, ha⟩ := hz
     cases ha; rfl
   subst this
-  exact payload_chan t c h.ticks
+  exact payload_chan t c (h.gaps_chanOf c)
 
 /-- Channel messages sit on a track of their own channel — one track per channel that occurs, in
     channel order, none of them empty — and everything else on the first track. -/
@@ -129,8 +131,8 @@ theorem convert_perm (f : File) (t : Track) (h : Dom f t) :
     ∃ g, convert f = .ok g ∧ (g.tracks.flatMap payload).Perm (payload t) := by
   refine ⟨_, convert_shape f t h, ?_⟩
   simp only [List.flatMap_cons, List.flatMap_map]
-  rw [payload_meta t h.ticks h.eot,
-    flatMap_congr' (g := fun c => (payload t).filter (onChan c)) (fun c _ => payload_chan t c h.ticks)]
+  rw [payload_meta t h.gaps_metaOf h.eot,
+    flatMap_congr' (g := fun c => (payload t).filter (onChan c)) (fun c _ => payload_chan t c (h.gaps_chanOf c))]
   exact (payload_partition t).symm
 
 /-- Every result track is properly terminated: it ends with an end-of-track event and contains no
@@ -148,7 +150,7 @@ theorem convert_closed (f : File) (t : Track) (h : Dom f t) :
     first result track and stays at its absolute tick (the length of the track is preserved). -/
 theorem convert_eot_time (f : File) (t : Track) (h : Dom f t) (hc : t.isClosed = true) :
     ∃ mt cts, convert f = .ok ⟨1, f.tf, mt :: cts⟩ ∧ (timed mt).getLast? = some (totalTicks t, EOT) :=
-  ⟨_, _, convert_shape f t h, timed_meta_closed t h.ticks h.eot hc⟩
+  ⟨_, _, convert_shape f t h, timed_meta_closed t h.gaps_metaOf h.eot hc⟩
 
 /-- A file that is format 1 already is returned unchanged. -/
 theorem convert_smf1 (f : File) (h : f.format = 1) : convert f = .ok f := by
@@ -172,7 +174,19 @@ def sampleTrack : Track :=
 
 def sampleFile : File := ⟨0, .metric 480, [sampleTrack]⟩
 
-example : Dom sampleFile sampleTrack := ⟨rfl, by decide, by decide, by unfold EOTOnlyLast; decide⟩
+example : Dom sampleFile sampleTrack := Dom.ofTotal rfl (by decide) (by decide) (by unfold EOTOnlyLast; decide)
+
+/-- a long piece: 2^32 ticks and more in total (24 steps of 2^28 − 1 ticks), yet inside the domain because no
+    resulting track is silent for 2^32 ticks -/
+def longTrack : Track :=
+  (List.range 24).map (fun i => ⟨268435455, if i % 3 = 0 then [0x90, 60, 100] else if i % 3 = 1 then [0xFF, 0x01, 0x01, 0x41] else [0x93, 62, 90]⟩)
+    ++ [⟨5, EOT⟩]
+
+example : 4294967296 ≤ totalTicks longTrack := by decide +kernel
+
+example : Dom ⟨0, .metric 960, [longTrack]⟩ longTrack :=
+  ⟨rfl, by decide, by decide +kernel, by decide +kernel,
+   gapsChan_of_first16 longTrack (by decide +kernel), by unfold EOTOnlyLast; decide +kernel⟩
 
 example : convert sampleFile = .ok ⟨1, .metric 480,
     [[⟨0, [0xFF, 0x51, 0x03, 0x07, 0xA1, 0x20]⟩, ⟨480, [0xFF, 0x01, 0x01, 0x41]⟩,
